@@ -500,7 +500,7 @@ void t_inplace_fwd(Ctx& c)
 void t_inplace_bidi(Ctx& c)
 {
     k_inplace_fwd<KBidi>(c);
-    k_inplace_fwd<KRa>(c);
+    C06_FULL(k_inplace_fwd<KRa>(c);)
 }
 
 // ---------------------------------------------------------------- reverse / shift_right (bidirectional and up; forward shift_right: C06_probe)
@@ -681,17 +681,27 @@ Test const kTests[] = {
 #if C06_PART != 2
     {"copying_ptr", t_copying_ptr},
     {"copying_in_out", t_copying_in_out},
+#if !C06_TRUTHY
     {"copying_fwd_back", t_copying_fwd_back},
     {"copying_bidi_out", t_copying_bidi_out},
 #endif
+#endif
 #if C06_PART != 1
+#if !C06_TRUTHY
     {"backward", t_backward},
+#endif
     {"fill", t_fill},
     {"inplace_fwd", t_inplace_fwd},
     {"inplace_bidi", t_inplace_bidi},
+#if !C06_TRUTHY
     {"inplace_rev", t_inplace_rev},
+#endif
+#if !C06_TRUTHY
     {"reverse_iterator", t_reverse_iterator},
+#endif
+#if !C06_TRUTHY
     {"swap", t_swap},
+#endif
 #endif
 };
 std::size_t const kNumTests = sizeof(kTests) / sizeof(kTests[0]);
@@ -699,9 +709,9 @@ std::size_t const kNumTests = sizeof(kTests) / sizeof(kTests[0]);
 } // namespace c06
 
 #if C06_PART == 1
-C06_MAIN("C06_mod_a")
+C06_MAIN(C06_TRUTHY ? "C06_mod_a_truthy" : "C06_mod_a")
 #elif C06_PART == 2
-C06_MAIN("C06_mod_b")
+C06_MAIN(C06_TRUTHY ? "C06_mod_b_truthy" : "C06_mod_b")
 #else
 C06_MAIN("C06_mod")
 #endif
